@@ -20,6 +20,7 @@ import (
 )
 
 type Exec struct {
+	curSt         *State
 	eng           *Engine
 	vc            *VC
 	top           *ssa.Function
@@ -79,6 +80,7 @@ type loopInfo struct {
 	snap       *State // state at header after havoc+assume
 	inv        []*Clause
 	dec        *Clause
+	nobreak    *Clause
 	decVal     []Term
 	appendOnly map[string]bool
 }
@@ -340,6 +342,20 @@ func (x *Exec) execFunction(fr *Frame, st *State) (*State, []Value) {
 	order, back := blockOrder(fn)
 	fr.loops = findLoops(fn, back)
 	if fr.contract != nil {
+		if fr.top {
+			// a loop clause whose ordinal names no loop of the function would be silently vacuous
+			for _, lc := range fr.contract.Loops {
+				found := false
+				for _, li := range fr.loops {
+					if lc.Ordinal == li.ordinal {
+						found = true
+					}
+				}
+				if !found {
+					x.specErrors = append(x.specErrors, fmt.Sprintf("%s: loop %d %s names no loop of the function (it has %d)", fn.Name(), lc.Ordinal, lc.Kind, len(fr.loops)))
+				}
+			}
+		}
 		for _, li := range fr.loops {
 			for _, lc := range fr.contract.Loops {
 				if lc.Ordinal == li.ordinal {
@@ -348,6 +364,8 @@ func (x *Exec) execFunction(fr *Frame, st *State) (*State, []Value) {
 						li.inv = append(li.inv, lc)
 					} else if lc.Kind == "decreases" {
 						li.dec = lc
+					} else if lc.Kind == "nobreak" {
+						li.nobreak = lc
 					}
 				}
 			}
@@ -469,6 +487,20 @@ func (x *Exec) addEdge(fr *Frame, incoming map[*ssa.BasicBlock][]edge, back map[
 			x.backEdge(fr, li, ns, from)
 		}
 		return
+	}
+	// `loop k nobreak`: an edge from inside the loop (not from its header) to the block the header
+	// itself exits to is a break
+	for _, li := range fr.loops {
+		// (a block that only breaks or returns cannot reach the back edge and is therefore not in
+		// the natural loop: membership is decided by dominance)
+		if li.nobreak == nil || from == li.header || li.body[to] || !li.header.Dominates(from) {
+			continue
+		}
+		for _, s := range li.header.Succs {
+			if s == to {
+				x.oblige(fr, ns, "loop", fmt.Sprintf("loop%d/nobreak", li.ordinal), "loop left by break: "+li.nobreak.Src, fr.curPos, TFalse, li.nobreak.Props)
+			}
+		}
 	}
 	incoming[to] = append(incoming[to], edge{from, cond, ns})
 }
@@ -727,6 +759,87 @@ func (x *Exec) loopWrites(fr *Frame, li *loopInfo) (cells map[*ssa.Alloc]bool, k
 	return
 }
 
+// loopCounters: the tracked counters whose callee pattern matches a call made in the loop body,
+// directly or through functions the engine inlines there.
+func (x *Exec) loopCounters(li *loopInfo) []string {
+	if len(x.counters) == 0 {
+		return nil
+	}
+	hit := map[string]bool{}
+	seen := map[*ssa.Function]bool{}
+	var scanFn func(fn *ssa.Function)
+	scanCall := func(ci ssa.CallInstruction) {
+		c := ci.Common()
+		var keys []string
+		var callee *ssa.Function
+		if sc := c.StaticCallee(); sc != nil {
+			keys = append(keys, fnKey(sc, x.eng.home))
+			callee = sc
+		} else if c.IsInvoke() {
+			keys = append(keys, x.eng.ifaceKey(c.Value.Type(), c.Method.Name()))
+		} else {
+			// call through a function value: any counter on a "funcvalue:" pattern, and
+			// closures created in this function are scanned below via MakeClosure
+			keys = append(keys, "funcvalue:")
+		}
+		for _, tc := range x.counters {
+			for _, k := range keys {
+				if matchCallee(tc.Callee, k) || (k == "funcvalue:" && strings.HasPrefix(tc.Callee, "funcvalue:")) {
+					hit[tc.Name] = true
+				}
+			}
+		}
+		if callee != nil && x.eng.contracts.Funcs[fnKey(callee, x.eng.home)] == nil && len(callee.Blocks) > 0 {
+			if _, isModel := models[callee.String()]; !isModel {
+				scanFn(callee)
+			}
+		}
+	}
+	scanFn = func(fn *ssa.Function) {
+		if seen[fn] {
+			return
+		}
+		seen[fn] = true
+		p := fn
+		for p.Parent() != nil {
+			p = p.Parent()
+		}
+		if p.Pkg == nil || !x.eng.homes[p.Pkg.Pkg] {
+			return
+		}
+		for _, b := range fn.Blocks {
+			for _, in := range b.Instrs {
+				if ci, ok := in.(ssa.CallInstruction); ok {
+					scanCall(ci)
+				}
+				if mc, ok := in.(*ssa.MakeClosure); ok {
+					if f, ok := mc.Fn.(*ssa.Function); ok {
+						scanFn(f)
+					}
+				}
+			}
+		}
+	}
+	for b := range li.body {
+		for _, in := range b.Instrs {
+			if ci, ok := in.(ssa.CallInstruction); ok {
+				scanCall(ci)
+			}
+			if mc, ok := in.(*ssa.MakeClosure); ok {
+				if f, ok := mc.Fn.(*ssa.Function); ok {
+					scanFn(f)
+				}
+			}
+		}
+	}
+	var out []string
+	for n := range hit {
+		out = append(out, n)
+	}
+	sort.Strings(out)
+	return out
+}
+
 // monotoneCells finds integer cells whose every store inside the loop is `cell = cell ± const`
 // with one sign (e.g. range indices); the direction is returned.
 func monotoneCells(li *loopInfo) map[*ssa.Alloc]int {
@@ -775,6 +888,11 @@ func (x *Exec) enterLoop(fr *Frame, li *loopInfo, st *State) {
 	}
 	// 2. havoc
 	cells, keys, all := x.loopWrites(fr, li)
+	// ghost call counters bumped by calls inside the loop have an unknown value in an arbitrary
+	// iteration (and after the loop) unless an invariant says otherwise
+	for _, name := range x.loopCounters(li) {
+		keys["cnt|"+name] = SInt
+	}
 	if all {
 		x.havocAll(st)
 	}
@@ -857,6 +975,7 @@ func (x *Exec) backEdge(fr *Frame, li *loopInfo, st *State, from *ssa.BasicBlock
 // instructions
 
 func (x *Exec) execInstr(fr *Frame, st *State, in ssa.Instruction) {
+	x.curSt = st
 	switch in := in.(type) {
 	case *ssa.DebugRef:
 	case *ssa.Alloc:
@@ -980,6 +1099,57 @@ func (x *Exec) newRef(fr *Frame) Term {
 		t := x.vc.Fresh("new", SInt)
 		x.vc.Assert(Lt(t, IntLit(-1000000*x.allocCtr)))
 		x.vc.Assert(Gt(t, IntLit(-1000000*(x.allocCtr+1))))
+		// freshness: the new object is none of the objects the function holds a reference to
+		// (objects allocated by earlier iterations share the symbolic range of this site)
+		var refs []Term
+		seen := map[string]bool{}
+		add := func(r Term) {
+			if _, isLit := r.Lit(); isLit || r.Sort != SInt || seen[r.S] || strings.Contains(r.S, "!q") {
+				return
+			}
+			seen[r.S] = true
+			refs = append(refs, r)
+		}
+		var walk func(v Value, typ types.Type)
+		walk = func(v Value, typ types.Type) {
+			switch vv := v.(type) {
+			case VSlice:
+				if vv.Back.Heap {
+					add(vv.Back.Ref)
+				}
+			case VIface:
+				add(vv.Val)
+			case VTerm:
+				if typ != nil {
+					switch typ.Underlying().(type) {
+					case *types.Pointer, *types.Map, *types.Chan:
+						add(vv.T)
+					}
+				}
+			case VStruct:
+				if typ != nil {
+					if stt, ok := typ.Underlying().(*types.Struct); ok && stt.NumFields() == len(vv.F) {
+						for i, f := range vv.F {
+							walk(f, stt.Field(i).Type())
+						}
+					}
+				}
+			}
+		}
+		for r, v := range fr.regs {
+			walk(v, r.Type())
+		}
+		if x.curSt != nil {
+			for c, v := range x.curSt.cells {
+				if pt, ok := c.Type().Underlying().(*types.Pointer); ok {
+					walk(v, pt.Elem())
+				}
+			}
+		}
+		sort.Slice(refs, func(i, j int) bool { return refs[i].S < refs[j].S })
+		for _, r := range refs {
+			x.vc.Assert(Neq(t, r))
+		}
 		return t
 	}
 	return IntLit(-x.allocCtr)
